@@ -525,6 +525,13 @@ Theorem fold_matches_spec : forall op args r, forallb wf_num args = true ->
 Proof. exact NumFoldProofs.fold_matches_spec. Qed.
 Print Assumptions fold_matches_spec.
 
+Theorem numeric_builtin_two_or_more : forall op a b l,
+  numeric_builtin op (a :: b :: l) = numeric_fold op (a :: b :: l).
+Proof. exact NumFoldProofs.numeric_builtin_two_or_more. Qed.
+Print Assumptions numeric_builtin_two_or_more.
+
+Example ex_star_one_operand_is_not_arithmetic : numeric_builtin OpMul [NInt 5] = Err.
+Proof. reflexivity. Qed.
 Example ex_mul_fold : numeric_fold OpMul [NInt 4611686018427387904; NInt 2; NInt 2; NInt 3] = Ok (NInt 0).
 Proof. reflexivity. Qed.
 Example ex_sub_fold : numeric_fold OpSub [NInt (-9223372036854775808); NInt 1; NInt (-1)] = Ok (NInt (-9223372036854775808)).
